@@ -170,10 +170,18 @@ func (g *Generator) generateInt64FieldMarshal(gf *protogen.GeneratedFile, field 
 	fieldName := field.GoName
 	jsonName := field.Desc.JSONName()
 
-	if field.Desc.IsList() {
+	switch {
+	case field.Desc.IsList():
 		// Handle repeated int64 fields
 		g.generateRepeatedInt64FieldMarshal(gf, fieldName, jsonName)
-	} else {
+	case field.Desc.HasPresence():
+		// proto3 optional: the Go field is a pointer and an explicit zero is still sent
+		gf.P("// Convert optional ", fieldName, " from string to number")
+		gf.P("if x.", fieldName, " != nil {")
+		gf.P(`raw["`, jsonName, `"], _ = json.Marshal(*x.`, fieldName, `)`)
+		gf.P("}")
+		gf.P()
+	default:
 		// Handle singular int64 field
 		g.generateSingularInt64FieldMarshal(gf, fieldName, jsonName)
 	}
